@@ -165,4 +165,188 @@ theorem segN_spec' (cplx : Bool) (lsub : Array Nat) (g : Seg) (lusup dense tempv
       · exact tvrest p hp
       · omega
 
+/-- Case 1 (col-col update) -/
+theorem seg1_spec' (lsub : Array Nat) (g : Seg) (lusup dense : Array K) (z : Nat → K)
+    (ok : SegOK lsub g dense) (h1 : g.segsze = 1)
+    (hz : ∀ s, s < g.segsze → z s = dense[lsub[g.lptr + g.noZeros + s]!]! -
+      ∑ q ∈ range s, z q * lusup[g.luptr + (g.nsupr * g.noZeros + g.noZeros) + (q * g.nsupr + s)]!) :
+    SegPost lsub g lusup dense z (seg1 lsub g lusup dense) := by
+  obtain ⟨hg1, hg2, hpos, hinj, hrow⟩ := ok
+  obtain ⟨lptr, luptr, nsupr, nsupc, nrow, segsze, noZeros, cnt⟩ := g
+  simp only at hg1 hg2 hpos hinj hrow h1 hz
+  subst h1 hg2
+  have hc : nsupc = noZeros + 1 := hg1.symm
+  subst hc
+  unfold seg1 SegPost
+  simp only
+  have z0 : z 0 = dense[lsub[lptr + noZeros + 0]!]! := by rw [hz 0 (by omega)]; simp
+  have e0 : lptr + (noZeros + 1) - 1 = lptr + noZeros + 0 := by omega
+  have e1 : ∀ t, lptr + (noZeros + 1) + t = lptr + noZeros + (1 + t) := fun t => by omega
+  have e2 : ∀ t, luptr + (nsupr * (noZeros + 1 - 1) + (noZeros + 1)) + t =
+      luptr + (nsupr * noZeros + noZeros) + (0 * nsupr + (1 + t)) := fun t => by
+    rw [Nat.add_sub_cancel]; omega
+  simp only [e0, e1, e2, ← z0]
+  obtain ⟨r1, r2, r3⟩ := scatterMap_spec cnt (fun t => lsub[lptr + noZeros + (1 + t)]!)
+    (fun t x => x - z 0 * lusup[luptr + (nsupr * noZeros + noZeros) + (0 * nsupr + (1 + t))]!) dense
+    (fun t u ht hu he => by have := hinj _ _ (by omega) (by omega) he; omega) (fun t ht => hrow _ (by omega))
+  refine ⟨r1, fun s hs => ?_, fun i hi => ?_, fun p hp => ?_⟩
+  · obtain rfl : s = 0 := by omega
+    rw [r3 _ (fun t ht he => by have := hinj _ _ (by omega) (by omega) he; omega), z0]
+  · rw [r2 i hi, Finset.sum_range_one]
+  · exact r3 p (fun t ht => hp (1 + t) (by omega))
+
+/-- Case 2 (2cols-col update) -/
+theorem seg2_spec' (lsub : Array Nat) (g : Seg) (lusup dense : Array K) (z : Nat → K)
+    (ok : SegOK lsub g dense) (h2 : g.segsze = 2)
+    (hz : ∀ s, s < g.segsze → z s = dense[lsub[g.lptr + g.noZeros + s]!]! -
+      ∑ q ∈ range s, z q * lusup[g.luptr + (g.nsupr * g.noZeros + g.noZeros) + (q * g.nsupr + s)]!) :
+    SegPost lsub g lusup dense z (seg2 lsub g lusup dense) := by
+  obtain ⟨hg1, hg2, hpos, hinj, hrow⟩ := ok
+  obtain ⟨lptr, luptr, nsupr, nsupc, nrow, segsze, noZeros, cnt⟩ := g
+  simp only at hg1 hg2 hpos hinj hrow h2 hz
+  subst h2 hg2
+  have hc : nsupc = noZeros + 2 := hg1.symm
+  subst hc
+  unfold seg2 SegPost
+  simp only
+  have z0 : z 0 = dense[lsub[lptr + noZeros + 0]!]! := by rw [hz 0 (by omega)]; simp
+  have z1 : z 1 = dense[lsub[lptr + noZeros + 1]!]! - z 0 * lusup[luptr + (nsupr * noZeros + noZeros) + (0 * nsupr + 1)]! := by
+    rw [hz 1 (by omega), Finset.sum_range_one]
+  have hm : nsupr * (noZeros + 2 - 1) = nsupr * noZeros + nsupr := by
+    rw [show noZeros + 2 - 1 = noZeros + 1 from by omega, Nat.mul_succ]
+  have e0 : lptr + (noZeros + 2) - 1 = lptr + noZeros + 1 := by omega
+  have e0' : lptr + noZeros + 1 - 1 = lptr + noZeros + 0 := by omega
+  have e1 : ∀ t, lptr + (noZeros + 2) + t = lptr + noZeros + (2 + t) := fun t => by omega
+  have a1 : luptr + (nsupr * (noZeros + 2 - 1) + (noZeros + 2) - 1) =
+      luptr + (nsupr * noZeros + noZeros) + (1 * nsupr + 1) := by rw [hm]; omega
+  have a2 : luptr + (nsupr * noZeros + noZeros) + (1 * nsupr + 1) - nsupr =
+      luptr + (nsupr * noZeros + noZeros) + (0 * nsupr + 1) := by omega
+  have a3 : ∀ t, luptr + (nsupr * noZeros + noZeros) + (1 * nsupr + 1) + 1 + t =
+      luptr + (nsupr * noZeros + noZeros) + (1 * nsupr + (2 + t)) := fun t => by omega
+  have a4 : ∀ t, luptr + (nsupr * noZeros + noZeros) + (0 * nsupr + 1) + 1 + t =
+      luptr + (nsupr * noZeros + noZeros) + (0 * nsupr + (2 + t)) := fun t => by omega
+  simp only [e0, e0', e1, a1, a2, a3, a4, ← z0, ← z1]
+  have n01 : lsub[lptr + noZeros + 1]! ≠ lsub[lptr + noZeros + 0]! := fun he => by
+    have := hinj _ _ (by omega) (by omega) he; omega
+  have hd1 : ∀ p, p ≠ lsub[lptr + noZeros + 1]! → (dense.setIfInBounds lsub[lptr + noZeros + 1]! (z 1))[p]! = dense[p]! := by
+    intro p hp; rw [getElem!_setIfInBounds, if_neg (fun h => hp h.1.symm)]
+  obtain ⟨r1, r2, r3⟩ := scatterMap_spec cnt (fun t => lsub[lptr + noZeros + (2 + t)]!)
+    (fun t x => x - (z 1 * lusup[luptr + (nsupr * noZeros + noZeros) + (1 * nsupr + (2 + t))]! +
+      z 0 * lusup[luptr + (nsupr * noZeros + noZeros) + (0 * nsupr + (2 + t))]!))
+    (dense.setIfInBounds lsub[lptr + noZeros + 1]! (z 1))
+    (fun t u ht hu he => by have := hinj _ _ (by omega) (by omega) he; omega)
+    (fun t ht => by rw [Array.size_setIfInBounds]; exact hrow _ (by omega))
+  refine ⟨by rw [r1, Array.size_setIfInBounds], fun s hs => ?_, fun i hi => ?_, fun p hp => ?_⟩
+  · rw [r3 _ (fun t ht he => by have := hinj _ _ (by omega) (by omega) he; omega)]
+    obtain rfl | rfl : s = 0 ∨ s = 1 := by omega
+    · rw [hd1 _ n01.symm, z0]
+    · rw [getElem!_setIfInBounds, if_pos ⟨rfl, hrow 1 (by omega)⟩]
+  · rw [r2 i hi, hd1 _ (fun he => by have := hinj _ _ (by omega) (by omega) he; omega),
+      Finset.sum_range_succ, Finset.sum_range_one]
+    ring
+  · rw [r3 p (fun t ht => hp (2 + t) (by omega)), hd1 p (fun he => hp 1 (by omega) he.symm)]
+
+/-- Case 3 (3cols-col update); `cplx` selects `ukj - (a + b)` (complex files) or `ukj - a - b` -/
+theorem seg3_spec' (cplx : Bool) (lsub : Array Nat) (g : Seg) (lusup dense : Array K) (z : Nat → K)
+    (ok : SegOK lsub g dense) (h3 : g.segsze = 3)
+    (hz : ∀ s, s < g.segsze → z s = dense[lsub[g.lptr + g.noZeros + s]!]! -
+      ∑ q ∈ range s, z q * lusup[g.luptr + (g.nsupr * g.noZeros + g.noZeros) + (q * g.nsupr + s)]!) :
+    SegPost lsub g lusup dense z (seg3 cplx lsub g lusup dense) := by
+  obtain ⟨hg1, hg2, hpos, hinj, hrow⟩ := ok
+  obtain ⟨lptr, luptr, nsupr, nsupc, nrow, segsze, noZeros, cnt⟩ := g
+  simp only at hg1 hg2 hpos hinj hrow h3 hz
+  subst h3 hg2
+  have hc : nsupc = noZeros + 3 := hg1.symm
+  subst hc
+  unfold seg3 SegPost
+  simp only
+  have z0 : z 0 = dense[lsub[lptr + noZeros + 0]!]! := by rw [hz 0 (by omega)]; simp
+  have z1 : z 1 = dense[lsub[lptr + noZeros + 1]!]! - z 0 * lusup[luptr + (nsupr * noZeros + noZeros) + (0 * nsupr + 1)]! := by
+    rw [hz 1 (by omega), Finset.sum_range_one]
+  have z2 : z 2 = dense[lsub[lptr + noZeros + 2]!]! -
+      (z 0 * lusup[luptr + (nsupr * noZeros + noZeros) + (0 * nsupr + 2)]! +
+       z 1 * lusup[luptr + (nsupr * noZeros + noZeros) + (1 * nsupr + 2)]!) := by
+    rw [hz 2 (by omega), Finset.sum_range_succ, Finset.sum_range_one]
+  have hm : nsupr * (noZeros + 3 - 1) = nsupr * noZeros + nsupr * 2 := by
+    rw [show noZeros + 3 - 1 = noZeros + 2 from by omega, Nat.mul_add]
+  have e0 : lptr + (noZeros + 3) - 1 = lptr + noZeros + 2 := by omega
+  have e0' : lptr + noZeros + 2 - 1 = lptr + noZeros + 1 := by omega
+  have e0'' : lptr + noZeros + 2 - 2 = lptr + noZeros + 0 := by omega
+  have e1 : ∀ t, lptr + (noZeros + 3) + t = lptr + noZeros + (3 + t) := fun t => by omega
+  have a1 : luptr + (nsupr * (noZeros + 3 - 1) + (noZeros + 3) - 1) =
+      luptr + (nsupr * noZeros + noZeros) + (2 * nsupr + 2) := by rw [hm]; omega
+  have a2 : luptr + (nsupr * noZeros + noZeros) + (2 * nsupr + 2) - nsupr =
+      luptr + (nsupr * noZeros + noZeros) + (1 * nsupr + 2) := by omega
+  have a2' : luptr + (nsupr * noZeros + noZeros) + (1 * nsupr + 2) - nsupr =
+      luptr + (nsupr * noZeros + noZeros) + (0 * nsupr + 2) := by omega
+  have a2'' : luptr + (nsupr * noZeros + noZeros) + (0 * nsupr + 2) - 1 =
+      luptr + (nsupr * noZeros + noZeros) + (0 * nsupr + 1) := by omega
+  have a3 : ∀ t, luptr + (nsupr * noZeros + noZeros) + (2 * nsupr + 2) + 1 + t =
+      luptr + (nsupr * noZeros + noZeros) + (2 * nsupr + (3 + t)) := fun t => by omega
+  have a4 : ∀ t, luptr + (nsupr * noZeros + noZeros) + (1 * nsupr + 2) + 1 + t =
+      luptr + (nsupr * noZeros + noZeros) + (1 * nsupr + (3 + t)) := fun t => by omega
+  have a5 : ∀ t, luptr + (nsupr * noZeros + noZeros) + (0 * nsupr + 2) + 1 + t =
+      luptr + (nsupr * noZeros + noZeros) + (0 * nsupr + (3 + t)) := fun t => by omega
+  simp only [e0, e0', e0'', e1, a1, a2, a2', a2'', a3, a4, a5, ← z0, ← z1]
+  have hu : (if cplx = true then
+        dense[lsub[lptr + noZeros + 2]!]! -
+          (z 1 * lusup[luptr + (nsupr * noZeros + noZeros) + (1 * nsupr + 2)]! +
+            z 0 * lusup[luptr + (nsupr * noZeros + noZeros) + (0 * nsupr + 2)]!)
+      else
+        dense[lsub[lptr + noZeros + 2]!]! - z 1 * lusup[luptr + (nsupr * noZeros + noZeros) + (1 * nsupr + 2)]! -
+          z 0 * lusup[luptr + (nsupr * noZeros + noZeros) + (0 * nsupr + 2)]!) = z 2 := by
+    rw [z2]; split <;> ring
+  rw [hu]
+  have n10 : lsub[lptr + noZeros + 1]! ≠ lsub[lptr + noZeros + 0]! := fun he => by
+    have := hinj _ _ (by omega) (by omega) he; omega
+  have n20 : lsub[lptr + noZeros + 2]! ≠ lsub[lptr + noZeros + 0]! := fun he => by
+    have := hinj _ _ (by omega) (by omega) he; omega
+  have n21 : lsub[lptr + noZeros + 2]! ≠ lsub[lptr + noZeros + 1]! := fun he => by
+    have := hinj _ _ (by omega) (by omega) he; omega
+  have hd1 : ∀ p, p ≠ lsub[lptr + noZeros + 2]! → p ≠ lsub[lptr + noZeros + 1]! →
+      ((dense.setIfInBounds lsub[lptr + noZeros + 2]! (z 2)).setIfInBounds lsub[lptr + noZeros + 1]! (z 1))[p]! = dense[p]! := by
+    intro p hp hp'
+    rw [getElem!_setIfInBounds, if_neg (fun h => hp' h.1.symm), getElem!_setIfInBounds, if_neg (fun h => hp h.1.symm)]
+  obtain ⟨r1, r2, r3⟩ := scatterMap_spec cnt (fun t => lsub[lptr + noZeros + (3 + t)]!)
+    (fun t x => x - (z 2 * lusup[luptr + (nsupr * noZeros + noZeros) + (2 * nsupr + (3 + t))]! +
+      z 1 * lusup[luptr + (nsupr * noZeros + noZeros) + (1 * nsupr + (3 + t))]! +
+      z 0 * lusup[luptr + (nsupr * noZeros + noZeros) + (0 * nsupr + (3 + t))]!))
+    ((dense.setIfInBounds lsub[lptr + noZeros + 2]! (z 2)).setIfInBounds lsub[lptr + noZeros + 1]! (z 1))
+    (fun t u ht hu he => by have := hinj _ _ (by omega) (by omega) he; omega)
+    (fun t ht => by rw [Array.size_setIfInBounds, Array.size_setIfInBounds]; exact hrow _ (by omega))
+  refine ⟨by rw [r1, Array.size_setIfInBounds, Array.size_setIfInBounds], fun s hs => ?_, fun i hi => ?_, fun p hp => ?_⟩
+  · rw [r3 _ (fun t ht he => by have := hinj _ _ (by omega) (by omega) he; omega)]
+    obtain rfl | rfl | rfl : s = 0 ∨ s = 1 ∨ s = 2 := by omega
+    · rw [hd1 _ n20.symm n10.symm, z0]
+    · rw [getElem!_setIfInBounds, if_pos ⟨rfl, by rw [Array.size_setIfInBounds]; exact hrow 1 (by omega)⟩]
+    · rw [getElem!_setIfInBounds, if_neg (fun h => n21 h.1.symm), getElem!_setIfInBounds, if_pos ⟨rfl, hrow 2 (by omega)⟩]
+  · rw [r2 i hi, hd1 _ (fun he => by have := hinj _ _ (by omega) (by omega) he; omega)
+      (fun he => by have := hinj _ _ (by omega) (by omega) he; omega),
+      Finset.sum_range_succ, Finset.sum_range_succ, Finset.sum_range_one]
+    ring
+  · rw [r3 p (fun t ht => hp (3 + t) (by omega)), hd1 p (fun he => hp 2 (by omega) he.symm) (fun he => hp 1 (by omega) he.symm)]
+
+/-- all four cases of the dispatch on `segsze` -/
+theorem segUpdate_spec' (cplx : Bool) (lsub : Array Nat) (g : Seg) (lusup dense tempv : Array K) (z : Nat → K)
+    (ok : SegOK lsub g dense)
+    (htv : 4 ≤ g.segsze → g.segsze + g.nrow ≤ tempv.size) (htz : 4 ≤ g.segsze → ∀ i, i < g.segsze + g.nrow → tempv[i]! = 0)
+    (hz : ∀ s, s < g.segsze → z s = dense[lsub[g.lptr + g.noZeros + s]!]! -
+      ∑ q ∈ range s, z q * lusup[g.luptr + (g.nsupr * g.noZeros + g.noZeros) + (q * g.nsupr + s)]!) :
+    SegPost lsub g lusup dense z (segUpdate cplx lsub g lusup dense tempv).1 ∧
+    (segUpdate cplx lsub g lusup dense tempv).2.size = tempv.size ∧
+    (∀ p : Nat, (segUpdate cplx lsub g lusup dense tempv).2[p]! = tempv[p]!) := by
+  unfold segUpdate
+  by_cases h1 : g.segsze = 1
+  · rw [if_pos h1]; exact ⟨seg1_spec' lsub g lusup dense z ok h1 hz, rfl, fun _ => rfl⟩
+  · rw [if_neg h1]
+    by_cases h3 : g.segsze ≤ 3
+    · rw [if_pos h3]
+      by_cases h2 : g.segsze = 2
+      · rw [if_pos h2]; exact ⟨seg2_spec' lsub g lusup dense z ok h2 hz, rfl, fun _ => rfl⟩
+      · rw [if_neg h2]
+        have := ok.hpos
+        exact ⟨seg3_spec' cplx lsub g lusup dense z ok (by omega) hz, rfl, fun _ => rfl⟩
+    · rw [if_neg h3]
+      exact segN_spec' cplx lsub g lusup dense tempv z ok (htv (by omega)) (htz (by omega)) hz
+
 end Slu.ColBmod
